@@ -1041,9 +1041,9 @@ class ArgumentParser(ParserDeprecations, ActionsContainer, ArgumentLinking, argp
             if not default_config_file_content.strip():
                 continue
             with change_to_path_dir(default_config_file), parser_context(parent_parser=self):
-                cfg_file = self._load_config_parser_mode(default_config_file.get_content(), key=key)
-                cfg = self.merge_config(cfg_file, cfg)
                 try:
+                    cfg_file = self._load_config_parser_mode(default_config_file.get_content(), key=key)
+                    cfg = self.merge_config(cfg_file, cfg)
                     with _ActionPrintConfig.skip_print_config():
                         cfg = self._parse_common(
                             cfg=cfg,
